@@ -33,3 +33,8 @@ Fixpoint drop_runes (n : nat) (s : str) : str :=
 
 (* TokenSlice.WordbreakPrefix indexes t[len(t)-1]: only called `if len(pipeline) > 0` *)
 Definition last_index (len : nat) : Z := Z.of_nat len - 1.
+
+(* pflagfork.lookupPosixShorthandArg: `for index, r := range arg[1:]` with index += 1 visits byte
+   offsets 1 <= index < len(arg); the first case returns when len(arg) == index+1; the later cases
+   read arg[index+1] and slice arg[:index+2], arg[index+2:], arg[:index+1], arg[index+1:] *)
+Definition shorthand_reads_next (len index : Z) : bool := negb (len =? index + 1).
